@@ -18,7 +18,10 @@ CORRESPONDENCE = ["FrameD.decompress / decompress_usingDict model == LZ4F_decomp
 RULE = ("frames built from parts in Python (header fields x raw/compressed/empty blocks from an independent sequence encoder x block/content "
         "checksums x content size x dictID x dictionaries), liblz4-made frames for volume, mutations, ALL single-bit flips and ALL truncations of "
         "small frames, FLG/BD pairs (all 65536 in thorough, stratified in quick) with right and wrong header checksum, random bytes over small "
-        "alphabets, skippable frames (16 magics, sizes 0..), multi-frame buffers with trailing bytes, linked blocks over >64KB; each byte string under "
+        "alphabets, skippable frames (16 magics, sizes 0..), multi-frame buffers with trailing bytes, linked blocks over >64KB; directed families: "
+        "'recycle' (linked, > maxBlockSize+128KB of uncompressed blocks through small dst buffers, then far matches), 'maxblock' (stored block size == "
+        "maxBlockSize staged through tmpIn, internal allocation sizes compared with the model), 'skipleak' (skipChecksums on frame k, checksum-only "
+        "damage on frame k+1), 'infodict' (getFrameInfo then decompress_usingDict); each byte string under "
         "chunkings {whole, 1-byte, header-splitting, random, hint-following} x capacities {1,7,bs-1,bs,large,random incl. 0/NULL} x skipChecksums x "
         "stableDst x {fresh exact dst per call, advancing window}. non-trivial = a session that got past the frame header (block or skippable stage); "
         "distinct = distinct (bytes, chunking, capacity policy, options)")
@@ -65,6 +68,7 @@ def gen_cases(tier, seed):
         add("maxblock", 1, bsid=5, raw=False, bcrc=True, sessions=2)
         add("maxblock", 1, bsid=4, raw=True, bcrc=True, sessions=2)
         add("skipleak", 8)
+        add("infodict", 6)
     elif tier == "search":
         add("valid", 60, frames=3, sessions=8)
         add("mutated", 60, frames=4, sessions=4)
@@ -85,6 +89,7 @@ def gen_cases(tier, seed):
             add("maxblock", 2, bsid=b, raw=False, bcrc=True, sessions=3)
             add("maxblock", 1, bsid=b, raw=True, bcrc=True, sessions=2)
         add("skipleak", 30)
+        add("infodict", 20)
     else:
         add("valid", 300, frames=3, sessions=10)
         add("mutated", 300, frames=4, sessions=5)
@@ -108,6 +113,7 @@ def gen_cases(tier, seed):
                     add("maxblock", 2 if b <= 5 else 1, bsid=b, raw=raw, bcrc=bc, sessions=4 if b <= 5 else 3, nomodel=(b >= 6))
         add("maxblock", 1, bsid=4, raw=False, bcrc=True, sessions=1, one=True)
         add("skipleak", 100)
+        add("infodict", 80)
     return cases
 
 def worker_init(ctx):
@@ -636,6 +642,14 @@ def run_case(st, case):
     elif kind == "corpus": k_corpus(st, acc, rng, case)
     elif kind == "recycle": k_recycle(st, acc, rng, case)
     elif kind == "maxblock": k_maxblock(st, acc, rng, case)
+    elif kind == "infodict":
+        for j in range(5):
+            ev, f = F.run_info_then_dict(st, rng)
+            acc.evals += ev; acc.stats["infodict_runs"] += 1
+            if f:
+                acc.fail(f[0], f[1], f[2]); break
+        else:
+            acc.keys.add("infodict_%d" % case["bseed"])
     elif kind == "skipleak":
         for j in range(4):
             ev, f = F.run_skipleak(st, rng)
